@@ -165,18 +165,23 @@ class Ev:
     # ------------------------------------------------------------ expressions
     def ev(self, n: ast.expr) -> Any:
         if isinstance(n, (ast.Subscript, ast.Call)) and "__fn__" in self.env:
-            kind = "subscript" if isinstance(n, ast.Subscript) else "call"
-            text = ast.unparse(n) if kind == "subscript" else ast.unparse(n)[:80]
+            meta = n.__dict__.get("_sa_site")
+            if meta is None:  # computed once per syntax-tree node
+                kind = "subscript" if isinstance(n, ast.Subscript) else "call"
+                text = ast.unparse(n) if kind == "subscript" else ast.unparse(n)[:80]
+                pop = f"{ast.unparse(n.func.value)}.pop()" if kind == "call" and isinstance(n.func, ast.Attribute) and n.func.attr == "pop" and not n.args else None
+                meta = n.__dict__["_sa_site"] = (kind, text, pop)
+            kind, text, pop = meta
             try:
                 v = self._ev(n)
             except _ModelRaise:
                 _cover(self.env, kind, text, "raise")
-                if kind == "call" and isinstance(n.func, ast.Attribute) and n.func.attr == "pop" and not n.args:
-                    _cover(self.env, "pop", f"{ast.unparse(n.func.value)}.pop()", "raise")
+                if pop:
+                    _cover(self.env, "pop", pop, "raise")
                 raise
             _cover(self.env, kind, text, "ok")
-            if kind == "call" and isinstance(n.func, ast.Attribute) and n.func.attr == "pop" and not n.args:
-                _cover(self.env, "pop", f"{ast.unparse(n.func.value)}.pop()", "ok")
+            if pop:
+                _cover(self.env, "pop", pop, "ok")
             return v
         return self._ev(n)
 
